@@ -71,8 +71,17 @@ def reader_side(ctx):
     from depccg.printer.auto import auto_of
     inv = [Category.parse(x) for x in gen.inventory('en')]
     pairs = [(Category.parse(','), Category.parse('NP')), (Category.parse('conj'), Category.parse('NP\\NP')), (Category.parse(','), Category.parse(','))]
+    # nodes whose own category carries the variable feature [X] (adverbial modifiers, type-raised categories): derivable, so labelled
+    xs = [c for c in inv if '[X]' in str(c)] + [t_ for ts_ in gen.grammar('en')[2].values() for t_ in ts_ if '[X]' in str(t_)] \
+        + [Category.parse(s_) for s_ in ['((S[X]\\NP)\\(S[X]\\NP))/NP', '(S[X]\\NP)\\(S[X]\\NP)', 'S[X]/(S[X]\\NP)', '(S[X]\\NP)/(S[X]\\NP)']]
     tries = 0
-    while len(pairs) < (12 if ctx.quick else 60) and tries < 20000:
+    while xs and len(pairs) < 9 and tries < 4000:
+        tries += 1
+        x, y = (rng.choice(xs), rng.choice(inv)) if rng.random() < 0.5 else (rng.choice(inv), rng.choice(xs))
+        if any('[X]' in str(r.cat) for r in en.apply_binary_rules(x, y)):
+            pairs.append((x, y))
+    tries = 0
+    while len(pairs) < (18 if ctx.quick else 70) and tries < 20000:
         tries += 1
         x, y = rng.choice(inv), rng.choice(inv)
         if len({str(r.cat) for r in en.apply_binary_rules(x, y)}) >= 2:
